@@ -34,6 +34,7 @@ IntProducers(n) == {   \* n: small non-negative TLC integer
   <<"function", Id1(Num(n))>>,
   <<"min", Call(Id("min"), <<Num(n), Num(n + 1)>>)>> }
   \cup (IF n <= 3 THEN { <<"len", Call(Id("len"), <<Arr([i \in 1..n |-> Num(0)])>>)>> } ELSE {})
+  \cup (IF n = 0 THEN { <<"shl-out", Bin("<<", Num(1), Num(64))>>, <<"shr-out", Bin(">>", Num(5), Num(70))>>, <<"mod", Bin("%", Num(6), Num(3))>>, <<"xor", Bin("^", Num(5), Num(5))>> } ELSE {})
 BigProducers == {    \* 2^20 = 1048576 >= 10^6
   <<"literal", Lit(D("1048576"))>>, <<"arith", Bin("*", Num(1024), Num(1024))>>, <<"shift", Bin("<<", Num(1), Num(20))>>,
   <<"or0", Bin("|", Lit(D("1048576")), Num(0))>>, <<"pow", Bin("**", Num(2), Num(20))>>, <<"round", Call(Id("round"), <<Lit(D("1048576.2"))>>)>>,
